@@ -154,11 +154,11 @@ CLAIMED = {
                   'segmentation, set orders, keep-alive and concurrency 1..4; request log and final table rows are compared with a '
                   'breadth-first reference crawl over the known graph',
         text='Seeded search over site graphs (cycles, diamonds, self and duplicate links, alternative spellings of the same URL, '
-             'same-host redirects, requisites, CSS url()), option combinations (-r, -l, -p, --no-parent, regex, -H, 1..3 start URLs), '
+             'same-host redirects, requisites incl. frames/embed/area, CSS url() and @import chains, fragment-only and case-differing links, a page with > 1000 links, objects that are linked as well as embedded), option combinations (-r, -l, -p, --page-requisites-level, --no-parent, regex, -H, 1..3 start URLs), '
              'concurrency and response orders. Oracle: no canonical URL requested twice, every URL the reference crawl fetches is '
              'requested, nothing else is, exit status 0, termination, every row done/skipped, one row per canonical URL.',
         note='Trusted: refs/site.py (canonical identities), refs/scope.py, the breadth-first reference (depth = shortest link '
-             'distance). Open known findings: redirect-target fetched twice; depth race under concurrency with -l.'),
+             'distance; a URL counts as reachable through any passing discovery record). Open known findings: redirect-target fetched twice; depth race under concurrency with -l; first discovery record wins for linked-and-embedded objects.'),
     'C02': dict(
         level='exploration', engine='crawl', design_ref='4/C02',
         technique='deterministic simulation of the whole application against sites that offer out-of-scope URLs; every request is '
@@ -166,7 +166,7 @@ CLAIMED = {
                   'at the server by an independent scope predicate',
         text='Seeded search over subsets and parameters of the scope options (recursion, depth, requisites, no-parent, domains, '
              'hostnames, span-hosts incl. --span-hosts-allow, regex, directories, suffix lists, tries, strong redirects) and sites '
-             'offering foreign hosts, upward paths, deep levels, rejected names/directories, cross-host redirects and transient 5xx. '
+             'offering foreign hosts, upward paths, deep levels (incl. @import chains beyond --page-requisites-level), rejected names/directories, cross-host redirects, transient 5xx, robots.txt that fails for a while or redirects out of scope. The retry limit is also counted by item runs, independently of the recorded try count. '
              'Oracle per request: refs/scope.py on (URL, item record, options); waivers only for robots.txt and for the span-hosts '
              'rule on a redirect hop with strong redirects.',
         note='Trusted: refs/scope.py as the restatement of the documented option semantics (disagreements are resolved by hand: one '
@@ -180,19 +180,19 @@ CLAIMED = {
              'nofollow pages, redirects, origins, concurrency and user agents. Oracle: no requested URL is disallowed for the agent; '
              'robots.txt of an origin is completely received before any other request to it and not requested again by items '
              'started after it was obtained; URLs reachable only through nofollow pages are never requested; 404 means allow-all; '
-             '5xx postpones (no request to that origin until it is obtained); coverage equals the reference crawl.',
+             '5xx and network faults during the fetch postpone (no request to that origin until it is obtained); rules with query parts and non-ASCII paths; tag options and --sitemaps drawn; coverage equals the reference crawl.',
         note='Trusted: refs/robots.py for the restricted dialect, refs/site.py, refs/scope.py. Concurrent first fetches of one '
-             'robots.txt are not judged.'),
+             'robots.txt are not judged. Open known finding: with --sitemaps robots.txt is requested again as an ordinary URL.'),
     'C03': dict(
         level='fault_enumeration', engine='crash', design_ref='4/C03',
         technique='deterministic simulation with real process kills: run 1 of the whole application executes in a forked child on a '
                   'replayed schedule and dies with os._exit(137) at an enumerated instant (before/after every SQL statement and commit, '
                   'on every server request and delivered segment); a copy of the SQLite files is inspected; run 2 (same command) resumes, '
                   'optionally killed again',
-        text='Workloads (site graph, concurrency, schedule) are sampled; per workload the kill instants are enumerated: all of them in '
+        text='Workloads (HTTP site graph or FTP directory tree, concurrency, schedule; variants: --database-uri, --sitemaps with a skipped start URL, transient 503/resets, > 1000 input URLs) are sampled; per workload the kill instants are enumerated: all of them in '
              'the thorough tier, a drawn sample (incl. instants right after status commits and during schema creation) in the quick '
              'tier. Oracle: no URL recorded done/skipped before the kill is requested again as an item; no row lost or left non-final; '
-             'the runs together request every URL of the reference crawl; the resumed run terminates with exit 0; scope does not widen.',
+             'the runs together request every URL of the reference crawl and every URL the uninterrupted run of the same command requested; the resumed run terminates; scope does not widen.',
         note='Trusted: SQLite atomic commit below statement level; process kill (not power loss); schedules replay exactly because one '
              'recorded tape drives run 0 and every killed run. Redirect follow-ups inside an item are exempt from the no-refetch clause.'),
     'C09': dict(
